@@ -28,19 +28,22 @@ MAX_STATES = 48
 
 
 class St:
-    __slots__ = ("lo", "hi", "snaps", "truth")
+    __slots__ = ("lo", "hi", "snaps", "truth", "gen", "pend")
 
-    def __init__(self, lo=0, hi=0, snaps=None, truth=None):
+    def __init__(self, lo=0, hi=0, snaps=None, truth=None, gen=0, pend=None):
         self.lo, self.hi = lo, hi
         self.snaps = dict(snaps or {})
         self.truth = dict(truth or {})
+        self.gen = gen  # bumped by every cursor-affecting operation
+        self.pend = dict(pend or {})  # local name -> ('res', lo_before, hi_before, gen_after): result of a sub-parser call
 
     def copy(self):
-        return St(self.lo, self.hi, self.snaps, self.truth)
+        return St(self.lo, self.hi, self.snaps, self.truth, self.gen, self.pend)
 
     def shift(self, a, b=None):
         b = a if b is None else b
         s = self.copy()
+        s.gen += 1
         s.lo = None if s.lo is None else s.lo + a
         s.hi = None if (s.hi is None or b is None) else s.hi + b
         return s
@@ -49,10 +52,11 @@ class St:
         s = self.copy()
         s.hi = INF
         s.truth = {}
+        s.gen += 1
         return s
 
     def key(self):
-        return (self.lo, self.hi, tuple(sorted(self.snaps.items())), tuple(sorted(self.truth.items())))
+        return (self.lo, self.hi, tuple(sorted(self.snaps.items())), tuple(sorted(self.truth.items())), self.gen, tuple(sorted(self.pend.items())))
 
 
 def hull(states):
@@ -63,7 +67,7 @@ def hull(states):
         los = [s.snaps[k][0] for s in states]
         his = [s.snaps[k][1] for s in states]
         snaps[k] = (None if any(x is None for x in los) else min(los), None if any(x is None for x in his) else max(his))
-    return St(lo, hi, snaps, {})
+    return St(lo, hi, snaps, {}, max(s.gen for s in states) + 1, {})
 
 
 def dedup(states):
@@ -81,6 +85,7 @@ def dedup(states):
 class Analyzer:
     def __init__(self, fn, bounds=None, tables=None):
         self.fn = fn
+        self.use_convention = False  # loop-progress mode only: sub-parser result convention P1/P2
         self.bounds = bounds or {}  # method name -> lower bound of its index delta (0 or negative)
         self.tables = tables or {}  # dispatch table name -> set of method names its entries call
         self.returns = []  # (St, lineno)
@@ -98,6 +103,8 @@ class Analyzer:
                 return [(st, ("int", e.value))]
             return [(st, None)]
         if isinstance(e, ast.Name):
+            if e.id in st.pend:
+                return [(st, st.pend[e.id])]
             if e.id in st.snaps:
                 lo, hi = st.snaps[e.id]
                 return [(st, ("idx", lo, hi))]
@@ -111,7 +118,7 @@ class Analyzer:
         if isinstance(e, ast.UnaryOp):
             outs = self.ev(e.operand, st)
             if isinstance(e.op, ast.Not):
-                return [(s, (not v) if isinstance(v, bool) else None) for s, v in outs]
+                return [(s, (not v) if isinstance(v, bool) else (("nres",) + v[1:] if isinstance(v, tuple) and v[0] == "res" else (("res",) + v[1:] if isinstance(v, tuple) and v[0] == "nres" else None))) for s, v in outs]
             if isinstance(e.op, ast.USub):
                 return [(s, ("int", -v[1]) if isinstance(v, tuple) and v[0] == "int" else None) for s, v in outs]
             return [(s, None) for s, v in outs]
@@ -123,7 +130,8 @@ class Analyzer:
             for i, sub in enumerate(e.values):
                 nxt = []
                 for s, _ in pending:
-                    for s2, v in self.ev(sub, s):
+                    for s2_, v_ in self.ev(sub, s):
+                      for s2, v in (self.split(s2_, v_) if i < len(e.values) - 1 else [(s2_, v_)]):
                         if i == len(e.values) - 1:
                             results.append((s2, v if isinstance(v, bool) else None))
                         elif v is True:
@@ -143,11 +151,12 @@ class Analyzer:
             return self._dd(results)
         if isinstance(e, ast.IfExp):
             outs = []
-            for s, v in self.ev(e.test, st):
-                if v is not False:
-                    outs += self.ev(e.body, s)
-                if v is not True:
-                    outs += self.ev(e.orelse, s)
+            for s_, v_ in self.ev(e.test, st):
+                for s, v in self.split(s_, v_):
+                    if v is not False:
+                        outs += self.ev(e.body, s)
+                    if v is not True:
+                        outs += self.ev(e.orelse, s)
             return self._dd(outs)
         if isinstance(e, ast.BinOp):
             outs = []
@@ -166,6 +175,10 @@ class Analyzer:
             return self.call(e, st)
         if isinstance(e, (ast.Lambda, ast.FunctionDef)):
             return [(st, None)]
+        if (isinstance(e, ast.Compare) and len(e.ops) == 1 and isinstance(e.ops[0], (ast.Is, ast.IsNot)) and isinstance(e.left, ast.Name)
+                and e.left.id in st.pend and isinstance(e.comparators[0], ast.Constant) and e.comparators[0].value is None):
+            v = st.pend[e.left.id]
+            return [(st, (("nres",) + v[1:]) if isinstance(e.ops[0], ast.Is) else v)]
         if isinstance(e, ast.Compare):
             states = [st]
             for sub in [e.left] + list(e.comparators):
@@ -192,6 +205,21 @@ class Analyzer:
         if len(res) > MAX_STATES:
             res = [(hull([s for s, _ in res]), None)]
         return res
+
+    def split(self, s, v):
+        """[(state, True|False|None)] for a condition value; a pending sub-parser result forks under the convention
+        (P1) falsy result => the sub-parser restored the index, (P2) truthy result => it consumed at least one token --
+        applied only if nothing touched the cursor since the call."""
+        if isinstance(v, tuple) and v[0] in ("res", "nres"):
+            _, lo0, hi0, gen = v
+            if s.gen != gen or not self.use_convention:
+                return [(s, None)]
+            t, f = s.copy(), s.copy()
+            if lo0 is not None:
+                t.lo = lo0 + 1 if t.lo is None else max(t.lo, lo0 + 1)
+            f.lo, f.hi = lo0, hi0
+            return [(t, True), (f, False)] if v[0] == "res" else [(t, False), (f, True)]
+        return [(s, v if isinstance(v, bool) else None)]
 
     def arith(self, op, a, b):
         def rng(v):
@@ -220,6 +248,9 @@ class Analyzer:
     def bind(self, st, name, v):
         st.snaps.pop(name, None)
         st.truth.pop(name, None)
+        st.pend.pop(name, None)
+        if isinstance(v, tuple) and v[0] == "res":
+            st.pend[name] = v
         if isinstance(v, tuple) and v[0] == "idx":
             st.snaps[name] = (v[1], v[2])
         elif isinstance(v, bool):
@@ -267,6 +298,10 @@ class Analyzer:
                 outs.append((s, None))
                 outs.append((s.shift(1), None))
             return self._dd(outs)
+        if is_self_method and name in ("_advance", "_retreat"):
+            states = [x.copy() for x in states]
+            for x in states:
+                x.gen += 1
         if is_self_method and name == "_advance":
             amt = 1
             if e.args:
@@ -300,6 +335,7 @@ class Analyzer:
                 touches_self = True
         if touches_self and not (isinstance(f, ast.Attribute) and isinstance(f.value, ast.Name) and f.value.id in ("exp", "t", "seq_get", "logger")):
             b = 0
+            tnames = []
             if is_self_method:
                 b = self.bounds.get(name, 0)
             else:
@@ -311,11 +347,12 @@ class Analyzer:
                 if not tnames and isinstance(f, ast.Name):
                     b = min([0] + [self.bounds[m] for m in self.bounds]) if f.id in ("parser",) else 0
             outs = []
+            is_parser = (is_self_method and name.startswith("_parse")) or bool(tnames if not is_self_method else False)
             for s in states:
                 m_ = s.mono()
                 if b < 0:
                     m_.lo = None if m_.lo is None else m_.lo + b
-                outs.append((m_, None))
+                outs.append((m_, ("res", s.lo, s.hi, m_.gen) if is_parser else None))
             return outs
         return [(s, None) for s in states]
 
@@ -380,11 +417,12 @@ class Analyzer:
             return []
         if isinstance(s, ast.If):
             for st in states:
-                for s2, v in self.ev(s.test, st):
-                    if v is not False:
-                        out += self.block(s.body, [s2])
-                    if v is not True:
-                        out += self.block(s.orelse, [s2])
+                for s2_, v_ in self.ev(s.test, st):
+                    for s2, v in self.split(s2_, v_):
+                        if v is not False:
+                            out += self.block(s.body, [s2])
+                        if v is not True:
+                            out += self.block(s.orelse, [s2])
             return out
         if isinstance(s, (ast.While, ast.For)):
             return self.loop(s, states)
@@ -433,11 +471,12 @@ class Analyzer:
             entering = []
             if isinstance(s, ast.While):
                 for st in cur:
-                    for s2, v in self.ev(s.test, st):
-                        if v is not False:
-                            entering.append(s2)
-                        if v is not True:
-                            exits.append(s2)
+                    for s2_, v_ in self.ev(s.test, st):
+                        for s2, v in self.split(s2_, v_):
+                            if v is not False:
+                                entering.append(s2)
+                            if v is not True:
+                                exits.append(s2)
             else:
                 exits += cur
                 entering = [st.copy() for st in cur]
@@ -502,6 +541,30 @@ class Analyzer:
 
 def _break_continue_fix(fn):
     return fn
+
+
+def loop_progress(fn):
+    """For every `while` loop of the method: the states that reach the loop head again after one iteration that started
+    at delta == 0.  Progress is proved if every such state has delta.lo >= 1 (strictly more input consumed)."""
+    out = []
+    loops = [n for n in ast.walk(fn) if isinstance(n, ast.While)]
+    for k, w in enumerate(loops):
+        an = Analyzer(fn)
+        an.use_convention = True
+        exits = []
+        entering = []
+        for s2_, v_ in an.ev(w.test, St()):
+            for s2, v in an.split(s2_, v_):
+                if v is not False:
+                    entering.append(s2)
+        try:
+            back = an.loop_body(w.body, entering, exits)
+        except RecursionError:
+            out.append((k, w, None, "recursion"))
+            continue
+        lo = min([(-(10**9) if b.lo is None else b.lo) for b in back] or [10**9])
+        out.append((k, w, lo, ""))
+    return out
 
 
 def load_parsers():
@@ -605,12 +668,38 @@ def main():
         })
         if a.v:
             print(("PROVED  " if ok else "FLAGGED ") + name, f"bound={own}", "" if ok else functions[-1]["obligations"][0]["model"][:150])
+    # ---- loop progress: every `while` loop of every parser method
+    methods, _tables = load_parsers()
+    n_loops = n_prog = 0
+    for rel, cls, fn, sha, seg in methods:
+        if "while " not in seg:
+            continue
+        for k, w, lo, why in loop_progress(fn):
+            n_loops += 1
+            ok = lo is not None and lo >= 1
+            n_prog += ok
+            name = f"{rel}:{cls}.{fn.name}#loop{k}"
+            functions.append({
+                "function": name, "props": ["C05"], "sha256": sha, "lineno": w.lineno, "status": "ok", "reason": why, "paths": 1,
+                "assumptions": ["loop progress under the sub-parser convention: (P1) a sub-parser returning a falsy value has restored the index, "
+                                "(P2) one returning a truthy value consumed at least one token; cursor primitives per their proved contracts"],
+                "opaque": [], "inlined": [], "callee_contracts": ["Parser._advance", "Parser._retreat", "Parser._match*"], "gen_s": 0, "projection": True,
+                "bound": 1, "delta_lo": None if lo is None else (min(lo, 1) if lo > -10**8 else -10**9),
+                "obligations": [{
+                    "id": f"{cls}.{fn.name}:loop{k}:progress", "kind": "dec", "line": w.lineno,
+                    "text": f"every iteration of `while {ast.unparse(w.test)[:60]}` that loops back has consumed at least one token (no non-progressing iteration)",
+                    "verdict": "discharged" if ok else "refuted", "solver": "interval", "time": 0.0, "attempts": [], "after_havoc": True,
+                    "model": "" if ok else json.dumps({"min_delta_on_a_looping_path": lo}),
+                }],
+            })
+            if a.v:
+                print(("PROGRESS " if ok else "NOPROOF  ") + name, lo)
     res = {"generation_s": round(time.time() - t0, 2), "wall_s": round(time.time() - t0, 2), "functions": functions, "solver_time_s": 0.0,
            "mode": "projection", "weak_methods": {m: b for m, b in bounds.items() if b < 0}}
     if a.out:
         json.dump(res, open(a.out, "w"), indent=1)
     n_ok = sum(f["obligations"][0]["verdict"] == "discharged" for f in functions)
-    print(f"projection: {len(functions)} parser methods analysed, {n_ok} meet their index bound, {len(functions) - n_ok} flagged; weak (-1) methods: {len(res['weak_methods'])}")
+    print(f"projection: {len(functions)} obligations ({n_loops} while loops: {n_prog} proved to make progress); {n_ok} discharged, {len(functions) - n_ok} undecided at this precision")
 
 
 if __name__ == "__main__":
